@@ -5,11 +5,14 @@
 //! internal: sim worker …, sim replay-exec <file>
 
 mod acceptor;
+mod bdrive;
+mod bglue;
 mod core;
 mod faults;
 mod guard;
 mod kinds;
 mod layout;
+mod modcmp;
 mod model;
 mod producer;
 mod props;
@@ -24,10 +27,15 @@ use std::path::Path;
 macro_rules! dispatch {
     ($id:expr, $f:ident, $($arg:expr),*) => {
         match $id {
+            "C01" => runner::$f::<props::c01::C01>($($arg),*),
             "C03" => runner::$f::<props::c03::C03>($($arg),*),
             "C04" => runner::$f::<props::c04::C04>($($arg),*),
+            "C05" => runner::$f::<props::c05::C05>($($arg),*),
+            "C06" => runner::$f::<props::c06::C06>($($arg),*),
             "C10" => runner::$f::<props::c10::C10>($($arg),*),
             "C11" => runner::$f::<props::c11::C11>($($arg),*),
+            "C12" => runner::$f::<props::c12::C12>($($arg),*),
+            "C13" => runner::$f::<props::c13::C13>($($arg),*),
             "C14" => runner::$f::<props::c14::C14>($($arg),*),
             "C19" => runner::$f::<props::c19::C19>($($arg),*),
             other => {
@@ -66,6 +74,7 @@ fn main() {
             std::process::exit(code)
         }
         "replay" => std::process::exit(runner::replay_cmd(Path::new(&args[2]))),
+        "selftest" => std::process::exit(selftest(args.get(2).map(|s| s.as_str()).unwrap_or("bindings"))),
         id if id.starts_with('C') => {
             let tier = args
                 .get(2)
@@ -79,6 +88,28 @@ fn main() {
         other => {
             eprintln!("HARNESS-ERROR: unknown command {}", other);
             std::process::exit(2)
+        }
+    }
+}
+
+fn selftest(what: &str) -> i32 {
+    match what {
+        "bindings" => {
+            let bs = bglue::bindings();
+            let callable = bglue::METHODS.iter().filter(|m| m.callable).count();
+            println!("methods parsed: {}  callable by the glue: {}  bound to an opcode: {}", bglue::METHODS.len(), callable, bs.all.len());
+            println!("not callable: {:?}", bglue::METHODS.iter().filter(|m| !m.callable).map(|m| m.name).collect::<Vec<_>>());
+            println!("callable but unbound: {:?}", bs.unbound);
+            let mut per = std::collections::BTreeMap::new();
+            for b in &bs.all {
+                *per.entry(format!("{:?}", b.class)).or_insert(0) += 1;
+            }
+            println!("per class: {:?}", per);
+            0
+        }
+        other => {
+            eprintln!("unknown selftest {}", other);
+            2
         }
     }
 }
